@@ -263,20 +263,87 @@ fn c08_positions(tier: Tier) -> Vec<Pos> {
             i += stride;
         }
     }
-    // promotion races for both colours: a pawn one step from promotion with a piece each side
-    // (PAWN7 and its flips; five men, so the plain reference is affordable at every depth)
-    let p7 = Pawn7;
-    let want = if tier == Tier::Quick { 5_000 } else { 150_000 };
-    let stride7 = (p7.len() / want) | 1;
-    let mut i = 0;
-    while i < p7.len() {
-        if let Some(p) = p7.decode(i) {
-            if p.has_legal_move() {
-                out.push(p.flip());
-                out.push(p);
+    // lopsided positional balances: walls of pawns on the 6th and 7th rank with a centralised king
+    // against a cornered king, a knight in the corner and rooks in front of the pawns (the static
+    // evaluation differs from the material count by several hundred), and the flips
+    {
+        let mut n_wall = 0;
+        let cap = if tier == Tier::Quick { 700 } else { 20_000 };
+        'walls: for m7 in 0u32..256 {
+            if !(3..=5).contains(&m7.count_ones()) {
+                continue;
+            }
+            for m6 in [0u32, 0b0001_0000, 0b0100_0010, 0b1000_0001, 0b0010_0100] {
+                for (wk, bk, bn) in [((4i8, 3i8), 63u8, 56u8), ((3, 3), 56, 63), ((4, 4), 63, 56)] {
+                    if (m7 as usize * 31 + m6 as usize * 7 + wk.0 as usize) % (if tier == Tier::Quick { 5 } else { 1 }) != 0 {
+                        continue;
+                    }
+                    let mut p = Pos::empty();
+                    for f in 0..8i8 {
+                        if m7 & (1 << f) != 0 {
+                            p.board[sq_at(f, 1).unwrap() as usize] = pc(WHITE, PAWN);
+                        }
+                        if m6 & (1 << f) != 0 && m7 & (1 << f) == 0 {
+                            p.board[sq_at(f, 2).unwrap() as usize] = pc(WHITE, PAWN);
+                        }
+                    }
+                    // black rooks on the 8th rank on the first two files next to a pawn file that has no pawn below
+                    let mut rooks = 0;
+                    for f in 0..8i8 {
+                        let next_to = (f > 0 && m7 & (1 << (f - 1)) != 0) || (f < 7 && m7 & (1 << (f + 1)) != 0);
+                        if next_to && m7 & (1 << f) == 0 && rooks < 2 {
+                            p.board[sq_at(f, 0).unwrap() as usize] = pc(BLACK, ROOK);
+                            rooks += 1;
+                        }
+                    }
+                    let wksq = sq_at(wk.0, wk.1).unwrap();
+                    if p.board[wksq as usize] != EMPTY || p.board[bk as usize] != EMPTY || p.board[bn as usize] != EMPTY {
+                        continue;
+                    }
+                    p.board[wksq as usize] = pc(WHITE, KING);
+                    p.board[bk as usize] = pc(BLACK, KING);
+                    p.board[bn as usize] = pc(BLACK, KNIGHT);
+                    for stm in [WHITE, BLACK] {
+                        p.stm = stm;
+                        if p.is_legal_position() && p.has_legal_move() {
+                            out.push(p.clone());
+                            out.push(p.flip());
+                            n_wall += 2;
+                        }
+                    }
+                    if n_wall >= cap {
+                        break 'walls;
+                    }
+                }
             }
         }
-        i += stride7;
+    }
+    // promotion races for both colours: a pawn one step from promotion with a piece each side
+    // (PAWN7 and its flips; five men, so the plain reference is affordable at every depth)
+    // (index layout of PAWN7: file, wk, bk, x, y | kind of x (4) | kind of y (4) | side to move (2);
+    // the heavy-piece pairs, where a promotion decides most, get half of the slice)
+    let p7 = Pawn7;
+    let want: u64 = if tier == Tier::Quick { 3_000 } else { 150_000 };
+    let inner: u64 = 8 * 64 * 64 * 64 * 64;
+    for kx in 0..4u64 {
+        for ky in 0..4u64 {
+            let share = if kx == 0 && ky == 0 { want / 2 } else { want / 30 };
+            for stm in 0..2u64 {
+                let n = (share / 2).max(1);
+                let stride = (inner / n) | 1;
+                let mut j = (kx * 7 + ky * 13 + stm) % stride;
+                while j < inner {
+                    let idx = j + inner * (kx + 4 * (ky + 4 * stm));
+                    if let Some(p) = p7.decode(idx) {
+                        if p.has_legal_move() {
+                            out.push(p.flip());
+                            out.push(p);
+                        }
+                    }
+                    j += stride;
+                }
+            }
+        }
     }
     out
 }
